@@ -26,6 +26,10 @@ RecObs(o) ==
 \* lists without duplicates, degrees agree with the lists
 WellFormed(o) == /\ Len(o.la) = Cardinality(SetOf(o.la)) /\ Len(o.ids) = Cardinality(SetOf(o.ids))
                  /\ \A v \in Vals : Len(o.fp[v]) = Cardinality(SetOf(o.fp[v]))
+                 \* lookup by edge type: exactly the live edges (all of type T), each once, and every live edge names its type
+                 /\ Len(o.ebt) = Cardinality(SetOf(o.ebt))
+                 /\ SetOf(o.ebt) = {e \in 1..o.ne : o.ge[e][1] = 1}
+                 /\ \A e \in 1..o.ne : o.ge[e][1] = 1 => o.ety[e] = 1
                  /\ \A n \in 1..NN : /\ Len(o.out[n]) = Cardinality(SetOf(o.out[n])) /\ o.od[n] = Len(o.out[n])
                                      /\ Len(o.inn[n]) = Cardinality(SetOf(o.inn[n])) /\ o.idg[n] = Len(o.inn[n])
 RecRets(e) == [t \in Threads |-> [i \in 1..Len(e.rets[t]) |-> e.rets[t][i]]]
